@@ -18,15 +18,18 @@ fn fabs<F: Scalar>(x: F) -> F {
     num_traits::Float::abs(x)
 }
 
-/// `a` and `b` agree: same term / same bits, else exactly equal (tol == 0) or within `tol`
-/// (values that went through exp / a rounded division: the witness is evaluated with IEEE shadows).
+/// `a` and `b` agree: same term / same bits, else exactly equal (tol == 0) or within `tol * (1 + |b|)`
+/// (values that went through exp / a fractional power / a rounded division: the witness is evaluated with
+/// IEEE shadows, the solver with exact reals).
 fn agree<F: Scalar>(name: &str, a: F, b: F, tol: f64) {
     if a.identical(b) {
         check_bool(name, true);
     } else if tol == 0.0 {
         check(name, a.s_eq(b));
     } else {
-        check(name, fabs(a - b).s_le(F::lit(tol)));
+        // relative to the magnitude on the run at hand (witness or replayed candidate)
+        let t = tol * (1.0 + b.shadow().abs());
+        check(name, fabs(a - b).s_le(F::lit(if t.is_finite() { t } else { tol })));
     }
 }
 
@@ -235,8 +238,7 @@ fn check_views<F: Scalar>(tag: &str, kernel: &Kernel<F>, mat: &Vec<Vec<Option<F>
                 if mutate == 7 && i == 0 {
                     s = s + rhs[(0, c)];
                 }
-                let scale = 1.0 + rhs.iter().map(|r| r.shadow().abs()).fold(0.0, f64::max);
-                agree(&format!("{}.dot(rhs)[i,c] is sum_k K[i,k] rhs[k,c]", tag), prod[(i, c)], s, tol * scale * n as f64);
+                agree(&format!("{}.dot(rhs)[i,c] is sum_k K[i,k] rhs[k,c]", tag), prod[(i, c)], s, tol * n as f64);
                 if tol == 0.0 {
                     observe(prod[(i, c)]);
                 }
